@@ -376,6 +376,25 @@ func checkC07(c *Ctx) {
 			c.Sample(map[string]interface{}{"call": describe[id]})
 		}
 	}
+	// the options -f, -l and -fc reach format() through the real binary as through the library
+	{
+		var cli []CLICase
+		src := "text A {\n    format(\"Please take good care of this rare POKeMON for me okay thanks a lot\")\n}\n" +
+			"script S {\n    msgbox(format(\"one two three four five six seven eight nine ten eleven twelve\", 100))\n    msgbox(format(\"aaaaa bbbbb ccccc ddddd eeeee fffff ggggg\", fontId=\"1_latin_frlg\"))\n}\n"
+		k := 0
+		for _, fid := range []string{"", "1_latin_frlg", "1_latin_rse", "no_such_font"} {
+			for _, ml := range []int{0, 80, 150} {
+				for _, fcp := range []string{repoFontConfig, filepath.Join(dir, "f0.json")} {
+					if fcp != repoFontConfig && fid != "" {
+						continue
+					}
+					cli = append(cli, CLICase{ID: fmt.Sprintf("fcli%d", k), Src: src, Opts: Opts{Optimize: true, FontConfig: fcp, FontID: fid, MaxLine: ml}, Stdin: k%2 == 0, ToFile: k%3 == 0})
+					k++
+				}
+			}
+		}
+		cliCheck(c, cli, "format() options")
+	}
 	bad, states, ok := runPairCases(c, "FormatCases", "fmtcases.ndjson", recs)
 	if !ok {
 		return
